@@ -66,6 +66,10 @@ pub struct RefChunkDecoder {
     pub cont_ext_mismatch: u64,
     pub lenient_fmt0_cont: u64,
     pub apply_chunk_size: bool,
+    /// absolute stream offset just past each message returned by the last `feed`
+    pub last_ends: Vec<u64>,
+    /// csid of each message returned by the last `feed`
+    pub last_csids: Vec<u32>,
 }
 
 const MAX24: u32 = 0xFF_FFFF;
@@ -83,6 +87,8 @@ impl RefChunkDecoder {
             cont_ext_mismatch: 0,
             lenient_fmt0_cont: 0,
             apply_chunk_size: true,
+            last_ends: Vec::new(),
+            last_csids: Vec::new(),
         }
     }
 
@@ -97,6 +103,8 @@ impl RefChunkDecoder {
     /// Feed more wire bytes; returns the messages completed by them.
     pub fn feed(&mut self, data: &[u8]) -> Result<Vec<RefMsg>, DecodeErr> {
         self.buf.extend_from_slice(data);
+        self.last_ends.clear();
+        self.last_csids.clear();
         let mut out = Vec::new();
         let mut cur = 0usize;
         loop {
@@ -395,6 +403,8 @@ impl RefChunkDecoder {
                 ts: abs,
                 payload: data,
             });
+            self.last_ends.push(self.base + (cur + hdr_len + payload_len) as u64);
+            self.last_csids.push(csid);
         } else {
             st.in_progress = Some(data);
         }
